@@ -526,5 +526,64 @@ pub fn run(ctx: &Ctx) {
     );
     ctx.bound(sub, "adjust-/scale-/change-color on RGB channels over an 8^3 colour lattice x 7 amounts, against the documented formulas", true);
     ctx.sample(sub, json!({"input": "scale-color(rgb(64,127,200), $red: 50%, $blue: 50%)"}));
+    // ---- scale-color on RGB channels against exact integer arithmetic --------------------------
+    let sub = "scale-exact";
+    let den: i64 = ctx.pick(100, 1000); // percentages in steps of 1% (thorough 0.1%)
+    par(
+        ctx,
+        sub,
+        256,
+        |i| json!({"channel": i}),
+        |i, l| {
+            let c = i as i64;
+            let step = if den == 100 { "1%" } else { "0.1%" };
+            let src = format!(
+                "@for $p from {lo} through {hi} {{ $x: scale-color(rgb({c}, {d}, {c}), $red: $p * {step}, $green: $p * {step}, $blue: $p * {step}); s {{ v: $p red($x) green($x) blue($x); }} }}\n",
+                lo = -den,
+                hi = den,
+                c = c,
+                d = 255 - c,
+                step = step
+            );
+            l.evals += 1;
+            let o = compile(&src, &Cfg::scss());
+            l.outcome(o.digest());
+            let Outcome::Ok(css) = &o else {
+                ctx.violation(sub, &format!("scale-exact:{}", c), &format!("program failed: {}", o.brief()), json!({"input": src}));
+                return;
+            };
+            // exact value of the scaled channel is N / den with N an integer; Sass rounds halves up
+            let exact = |ch: i64, p: i64| -> i64 {
+                let n = if p < 0 { ch * (den + p) } else { den * ch + (255 - ch) * p };
+                (2 * n + den) / (2 * den)
+            };
+            let mut seen = 0;
+            for (_, _, v) in decls(css) {
+                let q: Vec<i64> = v.split_whitespace().map(|x| x.parse().unwrap_or(i64::MIN)).collect();
+                if q.len() != 4 {
+                    continue;
+                }
+                seen += 1;
+                l.validated += 1;
+                let want = (exact(c, q[0]), exact(255 - c, q[0]), exact(c, q[0]));
+                if (q[1], q[2], q[3]) != want {
+                    ctx.violation(
+                        sub,
+                        &format!("scale-exact:{}:{}", c, q[0]),
+                        &format!("scale-color(rgb({c}, {d}, {c}), $red/$green/$blue: {p} x {step}) gives rgb({}, {}, {}); exact arithmetic with halves rounded up gives rgb({}, {}, {})", q[1], q[2], q[3], want.0, want.1, want.2, c = c, d = 255 - c, p = q[0], step = step),
+                        json!({"input": src, "percent_steps": q[0]}),
+                    );
+                    return;
+                }
+            }
+            if seen as i64 == 2 * den + 1 {
+                l.nontrivial += 1;
+            } else {
+                ctx.violation(sub, &format!("scale-exact:{}:count", c), &format!("expected {} results, read {}", 2 * den + 1, seen), json!({"input": src}));
+            }
+        },
+    );
+    ctx.bound(sub, "scale-color on all three RGB channels for every channel value 0..255 x every percentage -100%..100% in steps of 1% (thorough 0.1%), against exact integer arithmetic (halves round up)", true);
+    ctx.sample(sub, json!({"input": "scale-color(rgb(50, 205, 50), $red: -55%)", "expected_red": 23}));
     ctx.assume("colour equality `==` is cross-checked by comparing the serialised text of both sides as well; reference conversions are the CSS Color formulas in f64, compared with tolerance 1e-6 and +-1 at exact rounding ties");
 }
